@@ -34,6 +34,18 @@ check('C01',
       'solves the data with all |V| in [0.9, 1.1].',
       'DESIGN.md 7 C01')
 
+check('C02',
+      'exhaustive enumeration of all shipped models and declared strings x property-based argument points '
+      '(Hypothesis); differential oracle: direct Python evaluation of each declared string vs the generated '
+      'function executed through the model call path; regeneration under a different PYTHONHASHSEED compared '
+      'function by function; injected staleness (altered declaration) must trigger regeneration',
+      'Differential testing against an independent evaluator over an exhaustively enumerated outer domain '
+      '(97 models, ~2750 strings) and sampled argument points incl. piecewise break-points and complex services. '
+      'Algebraic identities checked at many random points; not a proof.',
+      'Trusted: vf/oracle/pyeval.py (Python parser + numpy), numpy. Hand-written numeric hooks have no declared '
+      'string and are outside the oracle. Points where the declared string is non-finite are not judged.',
+      'DESIGN.md 7 C02')
+
 NOT_BUILT = 'check not built yet in this round (machinery in progress; see DESIGN.md section 10 build order)'
 ALL = ['C%02d' % i for i in range(1, 21)]
 
